@@ -280,7 +280,7 @@ Definition pinv (st : pst) : Prop :=
   (f_head st = true -> has_errors (p_errs st) = true) /\
   (f_manifest st = true -> has_errors (p_errs st) = true) /\
   (f_versions st = true -> has_errors (p_errs st) = true) /\
-  (forall i, p_id st = Some i -> is_nil' i = true -> has_errors (p_errs st) = true).   (* serde.rs:185-189 *)
+  (forall i, p_id st = Some i -> is_nil' i = true -> has_errors (p_errs st) = true).   (* serde.rs:186-190 *)
 
 Lemma pinv_p0 : pinv p0.
 Proof. unfold pinv, p0; cbn. repeat split; intros; discriminate. Qed.
@@ -374,7 +374,7 @@ Qed.
 
 (** what IS guarded, check by check: with no recorded error all six Options are Some and every
     check of Inventory::new is implied by an earlier check of the visitor - since commit b116ae5
-    also the one on the id (E037 for the empty string, serde.rs:185-189) *)
+    also the one on the id (E037 for the empty string, serde.rs:186-190) *)
 Lemma finish_args st : pinv st -> has_errors (snd (finish st)) = false ->
   exists id a h nums,
     p_id st = Some id /\ id <> [] /\ p_type st = true /\ p_alg st = Some a /\ alg_allowed a = true /\
@@ -422,7 +422,7 @@ Proof.
 Qed.
 
 (** no error recorded => an inventory is returned: the six [.unwrap()]s on Options and
-    [Inventory::new(..).unwrap()] (serde.rs:500-512) are all guarded, for every document *)
+    [Inventory::new(..).unwrap()] (serde.rs:504-514) are all guarded, for every document *)
 Lemma visit_guarded items r e : visit items = (r, e) -> has_errors e = false -> r = PInv.
 Proof.
   unfold visit. destruct (run p0 items) as [st|ea] eqn:R; intros H He.
@@ -601,6 +601,57 @@ Proof.
   intros a c Hl. discriminate.
 Qed.
 
+(** ** the head check of validate_inventory (mod.rs:1008-1019) is what provides [dir_ok]:
+    [object_cross_check] hands the loop only the inventories whose head is their directory *)
+
+Definition found_ok (root : ainv) (d : N * ainv) : Prop :=
+  contiguous (snd d) /\ 1 <= fst d /\ fst d <= i_head root.
+
+Lemma desc_from_weaken : forall dirs b b', b <= b' -> desc_from b dirs -> desc_from b' dirs.
+Proof. destruct dirs as [|d r]; intros b b' Hb H; cbn [desc_from] in *; [exact I|]. destruct H; split; [lia|assumption]. Qed.
+
+Lemma desc_from_filter (f : N * ainv -> bool) : forall dirs bound,
+  desc_from bound dirs -> desc_from bound (filter f dirs).
+Proof.
+  induction dirs as [|d r IH]; intros bound H; cbn [filter]; [exact I|].
+  cbn [desc_from] in H. destruct H as [Hb Hr]. destruct (f d).
+  - cbn [desc_from]. split; [exact Hb|]. now apply IH.
+  - apply IH. eapply desc_from_weaken; [exact Hb|exact Hr].
+Qed.
+
+Lemma object_cross_check_get_version_guarded dbg root found :
+  contiguous root -> Forall (found_ok root) found -> desc_from (i_head root) found ->
+  object_cross_check dbg root found <> XPanic SGetVersion.
+Proof.
+  intros Hr Hf Hd. unfold object_cross_check. apply cross_check_get_version_guarded.
+  - exact Hr.
+  - apply Forall_forall. intros d Hin. apply filter_In in Hin as [Hin Hacc].
+    rewrite Forall_forall in Hf. destruct (Hf d Hin) as (Hc & H1 & H2).
+    unfold head_accepted in Hacc. unfold dir_ok. repeat split; try assumption. lia.
+  - now apply desc_from_filter.
+Qed.
+
+(** the rejection is needed: a VALID inventory with a LOWER head in a version directory, handed
+    to the loop, makes [get_version(..).unwrap()] (mod.rs:1552) panic *)
+Definition w3_root : ainv :=
+  mkI 512 3 [(1, [(1, 10)]); (2, [(1, 10)]); (3, [(1, 10)])] [(10, [(1, 1)])].
+Definition w3_v1 : ainv := mkI 512 1 [(1, [(1, 10)])] [(10, [(1, 1)])].
+
+Lemma get_version_needs_head_check :
+  cross_check false w3_root [(2, w3_v1)] = XPanic SGetVersion /\
+  object_cross_check false w3_root [(2, w3_v1)] = XOk 0 /\ head_rejected_count [(2, w3_v1)] = 1 /\
+  contiguous w3_root /\ found_ok w3_root (2, w3_v1).
+Proof.
+  split; [vm_compute; reflexivity|]. split; [vm_compute; reflexivity|]. split; [vm_compute; reflexivity|].
+  assert (C3 : contiguous w3_root).
+  { intros k H1 H2. change (i_head w3_root) with 3 in H2.
+    assert (k = 1 \/ k = 2 \/ k = 3) as [ -> | [ -> | -> ]] by lia; vm_compute; discriminate. }
+  assert (C1 : contiguous w3_v1).
+  { intros k H1 H2. change (i_head w3_v1) with 1 in H2. assert (k = 1) as -> by lia. vm_compute; discriminate. }
+  split; [exact C3|].
+  unfold found_ok. cbn [fst snd]. change (i_head w3_root) with 3. repeat split; try lia. exact C1.
+Qed.
+
 (** ** lifting a per-entry fact about one panic site to the whole loop *)
 Section Lift.
   Variable dbg : bool.
@@ -658,7 +709,7 @@ End Lift.
 
 (** ** content_paths(..).unwrap() *)
 
-(** what the E050 check (serde.rs:443-456) gives for an inventory that parsed without error:
+(** what the E050 check (serde.rs:471-487) gives for an inventory that parsed without error:
     every digest used by a state is a key of the manifest object *)
 Definition closed (inv : ainv) : Prop :=
   forall v st p d, In (v, st) (i_versions inv) -> In (p, d) st -> lookup d (i_manifest inv) <> None.
@@ -1028,7 +1079,7 @@ Lemma vdisplay_wide_example :
 Proof. split; vm_compute; reflexivity. Qed.
 
 (* ------------------------------------------------------------------ *)
-(** * 1b. the versions block: the set handed to validate_version_nums (serde.rs:615) *)
+(** * 1b. the versions block: the set handed to validate_version_nums (serde.rs:619) *)
 
 Lemma vset_insert_forall (P : vnum -> Prop) v : forall s, P v -> Forall P s -> Forall P (vset_insert v s).
 Proof.
